@@ -160,6 +160,12 @@ def evaluate_against_oracle(node, f, stt, what, require_complete=False, nreal=3,
             except Exception as e:
                 raise Decline("exception-at-binding:" + innermost_funsor_frame(e))
             if not close(got, want):
+                g_, w_ = np.asarray(got, dtype=float), np.asarray(want, dtype=float)
+                if g_.shape == w_.shape and np.all((np.isclose(g_, w_, rtol=1e-6, atol=1e-9, equal_nan=True)) | ((w_ == -np.inf) & np.isfinite(g_) & (g_ < -700.0))):
+                    # the reference evaluator works in floating point: exp(v) underflows to 0 for v < -745 and a later log gives
+                    # -inf, while funsor cancels log(exp(.)) symbolically and keeps the finite (very negative) value
+                    stt.count("oracle-underflow(point skipped)")
+                    continue
                 raise Violation(
                     f"{what}:wrong-value",
                     f"at {pt}: funsor gives {np.asarray(got).tolist()} oracle {np.asarray(want).tolist()} for {show(node)}",
